@@ -75,6 +75,8 @@ def build(tier, rnd):
         cases.append((name, pre + "%s()" % call, legacy))
         for a in P:
             cases.append((name, pre + "%s(%s)" % (call, a), legacy))
+            # the error a native raises must be a value of the language: handlers compare it with values of several kinds
+            cases.append((name, pre + "do %s(%s) catch 1 0 catch 'ERROR' 1 catch [2] 2 catch all 3 end" % (call, a), legacy))
         for a in P:
             for b in P:
                 cases.append((name, pre + "%s(%s, %s)" % (call, a, b), legacy))
